@@ -287,9 +287,12 @@ unsigned vg_close_bad, vg_close_calls;
 # define __CPROVER_rw_ok(p, n) 1
 # define __CPROVER_havoc_slice(p, n) memset((p), 0x5a, (n))
 #endif
+unsigned vg_tape_pos;      /* (declared in every mode: loop contracts of annot/socket.c.net.ann name it) */
 #ifdef NET_TAPE
-# define VG_TAPE_N 16
-long vg_tape[VG_TAPE_N]; unsigned vg_tape_pos;
+# ifndef VG_TAPE_N
+#  define VG_TAPE_N 16          /* 16, 32 or 64 */
+# endif
+long vg_tape[VG_TAPE_N];
 static long vg_draw(void)
 {
 # ifdef VERIF_NATIVE
@@ -303,9 +306,26 @@ static long vg_draw(void)
 # define VG_NB() ((vg_draw() & 1) != 0)
 # define VG_NI() ((int) vg_draw())
 # define VG_NL() (vg_draw())
-# define VG_TAPE_1(i) do { vg_tape[i] = VND(long, tape ## i); __CPROVER_assume(vg_tape[i] >= -2147483647L && vg_tape[i] <= 2147483647L); } while (0)
-# define VG_TAPE_FILL() do { VG_TAPE_1(0); VG_TAPE_1(1); VG_TAPE_1(2); VG_TAPE_1(3); VG_TAPE_1(4); VG_TAPE_1(5); VG_TAPE_1(6); VG_TAPE_1(7); \
-    VG_TAPE_1(8); VG_TAPE_1(9); VG_TAPE_1(10); VG_TAPE_1(11); VG_TAPE_1(12); VG_TAPE_1(13); VG_TAPE_1(14); VG_TAPE_1(15); vg_tape_pos = 0; } while (0)
+# ifdef VERIF_NATIVE
+#  define VG_TAPE_ND(i) vn_get("tape" #i, 0)
+# else
+#  define VG_TAPE_ND(i) nondet_long()
+# endif
+/* (a plain local named vnd_tape<i>, as VND makes it, without the statement expression: more than ~40 of those in
+ *  one function made goto-instrument abort in goto_inline) */
+# define VG_TAPE_1(i) { long vnd_tape ## i = VG_TAPE_ND(i); vg_tape[i] = vnd_tape ## i; __CPROVER_assume(vg_tape[i] >= -2147483647L && vg_tape[i] <= 2147483647L); }
+# if VG_TAPE_N > 32
+#  define VG_TAPE_MORE2() { VG_TAPE_1(32); VG_TAPE_1(33); VG_TAPE_1(34); VG_TAPE_1(35); VG_TAPE_1(36); VG_TAPE_1(37); VG_TAPE_1(38); VG_TAPE_1(39); VG_TAPE_1(40); VG_TAPE_1(41); VG_TAPE_1(42); VG_TAPE_1(43); VG_TAPE_1(44); VG_TAPE_1(45); VG_TAPE_1(46); VG_TAPE_1(47); VG_TAPE_1(48); VG_TAPE_1(49); VG_TAPE_1(50); VG_TAPE_1(51); VG_TAPE_1(52); VG_TAPE_1(53); VG_TAPE_1(54); VG_TAPE_1(55); VG_TAPE_1(56); VG_TAPE_1(57); VG_TAPE_1(58); VG_TAPE_1(59); VG_TAPE_1(60); VG_TAPE_1(61); VG_TAPE_1(62); VG_TAPE_1(63); }
+# else
+#  define VG_TAPE_MORE2() { }
+# endif
+# if VG_TAPE_N > 16
+#  define VG_TAPE_MORE() { VG_TAPE_1(16); VG_TAPE_1(17); VG_TAPE_1(18); VG_TAPE_1(19); VG_TAPE_1(20); VG_TAPE_1(21); VG_TAPE_1(22); VG_TAPE_1(23); VG_TAPE_1(24); VG_TAPE_1(25); VG_TAPE_1(26); VG_TAPE_1(27); VG_TAPE_1(28); VG_TAPE_1(29); VG_TAPE_1(30); VG_TAPE_1(31); VG_TAPE_MORE2(); }
+# else
+#  define VG_TAPE_MORE() { }
+# endif
+# define VG_TAPE_FILL() { VG_TAPE_MORE(); VG_TAPE_1(0); VG_TAPE_1(1); VG_TAPE_1(2); VG_TAPE_1(3); VG_TAPE_1(4); VG_TAPE_1(5); VG_TAPE_1(6); VG_TAPE_1(7); \
+    VG_TAPE_1(8); VG_TAPE_1(9); VG_TAPE_1(10); VG_TAPE_1(11); VG_TAPE_1(12); VG_TAPE_1(13); VG_TAPE_1(14); VG_TAPE_1(15); vg_tape_pos = 0; }
 #else
 # define VG_NB() nondet_bool()
 # define VG_NI() nondet_int()
@@ -402,13 +422,35 @@ int select(int nfds, fd_set *r, fd_set *w, fd_set *e, struct timeval *tv)
 }
 char *strerror(int e) { return (char *) "error"; }
 
+/* resolver: NULL (h_errno TRY_AGAIN or HOST_NOT_FOUND) or a static record; h_addr_list / h_name may be NULL */
+struct hostent vg_hostent; char vg_hostaddr[4]; char *vg_addrlist[2]; char vg_hostname[8];
+#define VG_RESOLVER_ASSIGNS vg_h_errno, vg_tape_pos, __CPROVER_object_whole(&vg_hostent), __CPROVER_object_whole(vg_addrlist), __CPROVER_object_whole(vg_hostname)
+struct hostent *gethostbyname(const char *name)
+{
+    __CPROVER_assert(name != NULL && __CPROVER_r_ok(name, 1), "gethostbyname: name is a readable string");
+    if (VG_NB()) { vg_h_errno = VG_NB() ? TRY_AGAIN : HOST_NOT_FOUND; return NULL; }
+    vg_addrlist[0] = vg_hostaddr; vg_addrlist[1] = NULL;
+    vg_hostent.h_addr_list = VG_NB() ? NULL : vg_addrlist;
+    vg_hostent.h_length = 4;
+    return &vg_hostent;
+}
+struct hostent *gethostbyaddr(const void *a, socklen_t l, int t)
+{
+    __CPROVER_assert(__CPROVER_r_ok(a, l), "gethostbyaddr: address readable");
+    if (VG_NB()) { vg_h_errno = VG_NB() ? TRY_AGAIN : HOST_NOT_FOUND; return NULL; }
+    vg_hostname[7] = 0; vg_hostent.h_name = VG_NB() ? NULL : vg_hostname;
+    return &vg_hostent;
+}
+const char *hstrerror(int e) { return "resolver error"; }
+char *inet_ntoa(struct in_addr in) { static char b[16]; b[15] = 0; return b; }
+
 /* ---- byte streams ---------------------------------------------------------------------------- */
 const char *vg_wr_base;
 size_t vg_wr_len, vg_wr_total, vg_wr_calls, vg_wr_retries;
 _Bool vg_wr_in_order, vg_wr_hard;   /* vg_wr_hard: some write() failed with an errno other than EAGAIN/EINTR */
 #define VG_RETRY_CAP (((size_t) 1) << 40)
 #define VG_WRITE_ASSIGNS vg_wr_total, vg_wr_calls, vg_wr_retries, vg_wr_in_order, vg_wr_hard
-#ifndef NET_OWN_WRITE
+#if !defined(NET_OWN_WRITE) && (!defined(VERIF_NATIVE) || defined(NET_NATIVE_RW))
 ssize_t write(int fd, const void *buf, size_t n)
 {
     __CPROVER_assert(n == 0 || __CPROVER_r_ok(buf, n), "write: buffer readable for n bytes");
@@ -440,6 +482,7 @@ ssize_t write(int fd, const void *buf, size_t n)
 #endif
 size_t vg_rd_total, vg_rd_calls;
 #define VG_READ_ASSIGNS vg_rd_total, vg_rd_calls
+#if !defined(VERIF_NATIVE) || defined(NET_NATIVE_RW)
 ssize_t read(int fd, void *buf, size_t n)
 {
     __CPROVER_assert(n == 0 || __CPROVER_w_ok(buf, n), "read: buffer writable for n bytes");
@@ -452,6 +495,7 @@ ssize_t read(int fd, void *buf, size_t n)
     vg_rd_total += k;
     return (ssize_t) k;
 }
+#endif
 #endif /* NET_KERNEL */
 
 #endif /* VERIF_ENV_NET_H */
